@@ -26,6 +26,7 @@ Search    : every transition record of the implementation is checked directly ag
 from __future__ import annotations
 
 import contextlib
+import os
 import time
 import io
 import json
@@ -419,15 +420,16 @@ class Scripted:
 
     def __enter__(self):
         t, td, me = self.torch, self.torch.distributions, self
-        self.saved = (t.rand, t.randint, td.Categorical.sample, td.Dirichlet.sample, td.Normal.sample,
-                      td.MultivariateNormal.sample)
+        self.saved = (t.rand, t.randint, td.Categorical.sample, td.Dirichlet.sample, t.normal,
+                      td.multivariate_normal._standard_normal, td.normal._standard_normal)
         self.saved_randn = t.randn
+        self.forced, self.forced_mode, self.in_momentum = [], False, False
 
         def randn(*size, **kw):
-            k = size[0] if isinstance(size[0], int) else size[0][0]
-            v = [me.rng.gauss(0.0, 1.0) for _ in range(k)]
-            me.events.append(("normal", v, ("randn",)))
-            return t.tensor(v, dtype=t.float64)
+            shape = size[0] if len(size) == 1 and not isinstance(size[0], int) else size
+            v = next_z(numel(shape))
+            emit(v)
+            return t.tensor(v, dtype=kw.get("dtype") or t.float64).reshape(tuple(shape) if not isinstance(shape, int) else (shape,))
 
         t.randn = randn
 
@@ -465,26 +467,46 @@ class Scripted:
             me.events.append(("dir", v, c))
             return t.tensor(v, dtype=d.concentration.dtype)
 
-        def norm_sample(d, sample_shape=t.Size()):
-            v = [me.rng.gauss(0.0, 1.0) * s for s in d.scale.tolist()]
-            me.events.append(("normal", v, ("diag", d.loc.tolist(), d.scale.tolist())))
-            return t.tensor(v, dtype=d.scale.dtype)
+        # standard-normal PRIMITIVES (not the distributions' sample methods): whatever the library builds on top of
+        # them — Normal(0, sqrt m).sample(), MultivariateNormal(0, M).sample(), its own z @ factor — runs for real
+        def next_z(k):
+            if me.forced:
+                return list(me.forced.pop(0))[:k]
+            return [me.rng.gauss(0.0, 1.0) for _ in range(k)]
 
-        def mvn_sample(d, sample_shape=t.Size()):
-            z = t.tensor([me.rng.gauss(0.0, 1.0) for _ in range(d.loc.shape[-1])], dtype=d.loc.dtype)
-            v = (d.scale_tril @ z).tolist()
-            me.events.append(("normal", v, ("dense", d.loc.tolist(), d.covariance_matrix.tolist())))
-            return t.tensor(v, dtype=d.loc.dtype)
+        def numel(shape):
+            n_ = 1
+            for d_ in (shape if isinstance(shape, (tuple, list, t.Size)) else (shape,)):
+                n_ *= int(d_)
+            return n_
+
+        def emit(v):
+            if me.in_momentum or me.forced_mode:
+                me.events.append(("z", v))
+            else:
+                me.events.append(("normal", v, ("randn",)))
+
+        def std_normal(shape, dtype=None, device=None):
+            v = next_z(numel(shape))
+            emit(v)
+            return t.tensor(v, dtype=dtype or t.get_default_dtype()).reshape(tuple(shape))
+
+        def normal(mean, std, *a, **k):
+            v = next_z(mean.numel())
+            emit(v)
+            return mean + std * t.tensor(v, dtype=mean.dtype).reshape(mean.shape)
 
         t.rand, t.randint = rand, randint
         td.Categorical.sample, td.Dirichlet.sample = cat_sample, dir_sample
-        td.Normal.sample, td.MultivariateNormal.sample = norm_sample, mvn_sample
+        t.normal = normal
+        td.multivariate_normal._standard_normal = std_normal
+        td.normal._standard_normal = std_normal
         return self
 
     def __exit__(self, *a):
         t, td = self.torch, self.torch.distributions
-        (t.rand, t.randint, td.Categorical.sample, td.Dirichlet.sample, td.Normal.sample,
-         td.MultivariateNormal.sample) = self.saved
+        (t.rand, t.randint, td.Categorical.sample, td.Dirichlet.sample, t.normal,
+         td.multivariate_normal._standard_normal, td.normal._standard_normal) = self.saved
         t.randn = self.saved_randn
 
 
@@ -541,6 +563,41 @@ def execute_run(cfg, tape_seed):
                 return o_kin(momentum, inverse_mass_matrix)
 
             op._hamiltonian.kinetic_energy = kinetic_energy
+            o_sm = op._hamiltonian.sample_momentum
+
+            def sample_momentum(mass_matrix):
+                sc.in_momentum = True
+                try:
+                    mom = o_sm(mass_matrix)
+                finally:
+                    sc.in_momentum = False
+                sc.events.append(("normal", mom.detach().clone().tolist(), mass_matrix.detach().clone().tolist()))
+                return mom
+
+            op._hamiltonian.sample_momentum = sample_momentum
+
+            def momentum_law():
+                """the linear map standard normal -> momentum that sample_momentum REALLY applies (unit vectors fed
+                through the scripted primitives): its A A^T is the covariance the momentum is drawn with"""
+                n_ = op.mass_matrix.shape[0]
+                cols = []
+                sc.forced_mode = True
+                try:
+                    n_ev = len(sc.events)
+                    for i_ in range(n_ + 1):
+                        sc.forced.append([1.0 if j_ == i_ else 0.0 for j_ in range(n_)])
+                        cols.append(o_sm(op.mass_matrix).detach().clone().tolist())
+                        del sc.forced[:]
+                except Exception as e:
+                    return {"error": f"{type(e).__name__}: {str(e)[:100]}"}
+                finally:
+                    sc.forced_mode = False
+                    del sc.forced[:]
+                    del sc.events[n_ev:]
+                mean = cols[n_]  # z = 0
+                A = [[cols[j_][i_] - mean[i_] for j_ in range(n_)] for i_ in range(n_)]
+                cov = [[sum(A[i_][k_] * A[j_][k_] for k_ in range(n_)) for j_ in range(n_)] for i_ in range(n_)]
+                return {"mean": mean, "cov": cov}
 
         def step():
             cur.clear()
@@ -551,6 +608,7 @@ def execute_run(cfg, tape_seed):
             cur["masses"] = {j: o2._mass_matrix.tensor.detach().clone().tolist()
                              for j, o2 in enumerate(ops) if hasattr(o2, "_mass_matrix")}
             if is_hmc:
+                cur["momentum_law"] = momentum_law()
                 cur["mass_now"] = cur["masses"][idx]
                 del kin_ims[:]
                 cur["ims0"] = len(op._integrator.im_args)
@@ -616,7 +674,24 @@ def execute_run(cfg, tape_seed):
         return o_log(*a, **k)
 
     logger.log = log
-    mc = MCMC("mcmc", JointProxy(), ops, cfg["iterations"], loggers=[logger], checkpoint=None, every=0)
+    # the library's own Logger objects as configured for this run: files (read back AFTER the run) and stdout
+    import tempfile
+    from torchtree.core.logger import Logger
+
+    tmpdir = tempfile.mkdtemp(prefix="c15log-")
+    file_loggers = []
+    for li, ls in enumerate(cfg.get("loggers", [])):
+        kw = {}
+        if ls.get("file"):
+            kw["file_name"] = os.path.join(tmpdir, f"log{li}.csv")
+        if ls.get("delimiter"):
+            kw["delimiter"] = ls["delimiter"]
+        try:
+            file_loggers.append((ls, kw.get("file_name"), Logger(list(params) + [joint], ls["every"], **kw)))
+        except Exception as e:
+            file_loggers.append((ls, None, ("EXC", f"{type(e).__name__}: {e}")))
+    mc = MCMC("mcmc", JointProxy(), ops, cfg["iterations"],
+              loggers=[logger] + [fl[2] for fl in file_loggers if not isinstance(fl[2], tuple)], checkpoint=None, every=0)
     err = None
     init = snap()
     is_sky = cfg["target"]["kind"] == "skygrid"
@@ -626,7 +701,8 @@ def execute_run(cfg, tape_seed):
     if cfg.get("default_dtype"):
         torch.set_default_dtype(torch.float64 if cfg["default_dtype"] == "float64" else torch.float32)
     grad_ctx = torch.no_grad() if cfg.get("no_grad") else contextlib.nullcontext()
-    with Scripted(torch, rng, coarse=is_sky) as sc, contextlib.redirect_stdout(io.StringIO()), grad_ctx:
+    stdout_buf = io.StringIO()
+    with Scripted(torch, rng, coarse=is_sky) as sc, contextlib.redirect_stdout(stdout_buf), grad_ctx:
         try:
             mc.run()
         except ZeroDivisionError:
@@ -637,7 +713,25 @@ def execute_run(cfg, tape_seed):
             err = f"{type(e).__name__}: {str(e)[:120]}"
         finally:
             torch.set_default_dtype(old_dtype)
-    return {"records": records, "init": init, "init_lp": joint_calls[0] if joint_calls else None,
+    logs = []
+    for ls, fname, lg in file_loggers:
+        entry = {"spec": ls, "rows": [], "error": lg[1] if isinstance(lg, tuple) else None}
+        try:
+            text = open(fname).read() if fname else stdout_buf.getvalue()
+            delim = ls.get("delimiter") or ","
+            for line in text.splitlines():
+                cells = line.split(delim)
+                try:
+                    entry["rows"].append([float(c) for c in cells])
+                except ValueError:
+                    continue  # header / other output on stdout
+        except Exception as e:
+            entry["error"] = f"{type(e).__name__}: {e}"
+        logs.append(entry)
+    import shutil
+
+    shutil.rmtree(tmpdir, ignore_errors=True)
+    return {"logs": logs, "records": records, "init": init, "init_lp": joint_calls[0] if joint_calls else None,
             "rows": rows, "error": err, "target": tgt, "ops": ops, "epoch_end": mc._epoch}
 
 
@@ -1107,14 +1201,21 @@ def true_hastings(cfg, r):
         # one CURRENT mass matrix M (the parameter the adaptor writes): the momentum law must be N(0, M), and
         # the integrator and both kinetic energies must use an inverse of that same M
         mass = r.get("mass_now", o["mass"])
-        for e in ev:
-            kindm, loc, sc = e[2]
-            if any(v != 0 for v in loc):
+        law = r.get("momentum_law") or {}
+        if "error" in law:
+            return None, "sample_momentum raised when probed: " + law["error"]
+        if law:
+            n_ = len(law["mean"])
+            M = mass if isinstance(mass[0], list) else [[(mass[i] if i == j else 0.0) for j in range(n_)] for i in range(n_)]
+            if any(abs(v) > 1e-12 for v in law["mean"]):
                 return None, "momentum mean not zero"
-            if kindm == "diag" and not all(close(s * s, m_, 1e-10) for s, m_ in zip(sc, mass)):
-                return None, "momentum scale^2 is not the current mass matrix"
-            if kindm == "dense" and not all(close(x, y, 1e-10) for x, y in zip(flatten(sc), flatten(mass))):
-                return None, "momentum covariance is not the current mass matrix"
+            if not all(close(law["cov"][i][j], M[i][j], 1e-9) for i in range(n_) for j in range(n_)):
+                return None, ("the momentum is not drawn from N(0, M): covariance of the draw (A A^T of the map standard normal -> "
+                              "momentum) %s, mass matrix the kinetic energy uses %s" % (law["cov"], M))
+        for e in ev:
+            if isinstance(e[2], list) and not all(close(x, y, 1e-12) for x, y in zip(flatten(e[2]) if isinstance(e[2][0], list) else e[2],
+                                                                                         flatten(mass) if isinstance(mass[0], list) else mass)):
+                return None, "sample_momentum was called with a matrix that is not the current mass matrix"
         for im_u in r.get("im_used", []):
             if not is_inverse(im_u, mass):
                 return None, "inverse mass matrix used by the integrator / kinetic energy is not the inverse of the current mass matrix"
@@ -1339,6 +1440,51 @@ def check_records(ck: Check, cfg, res, found, label):
                                "boldness_before": b0, "boldness_after": b1}, cfg, it))
         elif r["scale_after"] != r["scale_before"]:
             found.append((f"{op_class(kind)}:tuned-while-disabled", {"clause": "scale moved with adaptation disabled"}, cfg, it))
+
+
+def check_log_files(ck: Check, cfg, res, found, tseed):
+    """every row the library's Logger objects wrote (files read back after the run, stdout captured): it must be a row of
+    the trajectory observed in-process at that iteration, and its density must be the target rebuilt from scratch at the
+    parameter values WRITTEN IN THAT ROW"""
+    tgt, recs = res["target"], res["records"]
+    nstate = len(flatten(res["init"]))
+    if res["error"]:
+        return
+    for lg in res.get("logs", []):
+        spec = lg["spec"]
+        name = ("file" if spec.get("file") else "stdout") + f"/every={spec['every']}"
+        ck.bucket("oracle/logger/" + name)
+        if lg["error"]:
+            found.append(("Logger:raised", {"clause": "the logger could not be built / read: " + lg["error"], "logger": spec}, cfg, 0, tseed))
+            continue
+        rows = [r_ for r_ in lg["rows"] if len(r_) == nstate + 2]
+        want_samples = [s_ for s_ in range(0, len(recs) + 1) if s_ % spec["every"] == 0]
+        if [int(r_[0]) for r_ in rows] != want_samples:
+            found.append(("Logger:rows-missing", {"clause": "the logger did not write one row for every `every`-th iteration (0 included)",
+                                                  "logger": spec, "samples_written": [int(r_[0]) for r_ in rows][:20],
+                                                  "expected": want_samples[:20]}, cfg, 0, tseed))
+            continue
+        for r_ in rows:
+            s_ = int(r_[0])
+            state = res["init"] if s_ == 0 else recs[s_ - 1]["after"]
+            vals, dens = r_[1:-1], r_[-1]
+            ck.case(("logrow", name, tseed, s_), None, bucket=None)
+            shaped, k_ = [], 0
+            for v in state:
+                shaped.append(vals[k_:k_ + len(v)])
+                k_ += len(v)
+            fr = tgt.fresh(shaped)
+            if isinstance(fr, float) and not (math.isnan(fr) and math.isnan(dens)) and not close(dens, fr, 1e-9):
+                found.append(("Logger:row-not-self-consistent",
+                              {"clause": "a row written by the Logger is not self-consistent: the logged density is not the target at "
+                                         "the parameter values logged in the same row", "logger": spec, "sample": s_, "row": r_,
+                               "target_at_logged_values": fr, "state_in_process": state}, cfg, max(s_ - 1, 0), tseed))
+                break
+            if vals != flatten(state):
+                found.append(("Logger:row-differs-from-trajectory",
+                              {"clause": "the row written for an iteration does not hold the parameter values the chain had at that iteration",
+                               "logger": spec, "sample": s_, "row": r_, "state_in_process": state}, cfg, max(s_ - 1, 0), tseed))
+                break
 
 
 def op_class(kind):
@@ -1718,7 +1864,17 @@ def gen_cfg(rng, family, adapt, iterations):
             ops[0]["lo"], ops[0]["hi"] = t["lo"], t["hi"]
         exact = True
     any_adapt = any(o["adapt"] or o.get("adaptors") for o in ops)
-    return {"family": family, "target": t, "ops": ops, "iterations": iterations,
+    loggers = [{"file": rng.random() < 0.75, "every": rng.choice([1, 1, 2, 3]), "delimiter": rng.choice([None, "\t"])}
+               for _ in range(rng.choice([1, 2, 3]))]
+    if not any(l_["file"] for l_ in loggers):
+        loggers[0]["file"] = True
+    seen_stdout = False
+    for l_ in loggers:  # at most one logger on stdout (their rows would interleave in the captured stream)
+        if not l_["file"]:
+            if seen_stdout:
+                l_["file"] = True
+            seen_stdout = True
+    return {"family": family, "target": t, "ops": ops, "iterations": iterations, "loggers": loggers,
             "oracle_only": any(o["kind"] == "stub" for o in ops) or family == "dtype",
             **({"default_dtype": rng.choice(["float32", "float64"])} if family == "dtype" else {}),
             # bit-exact agreement is demanded when only elementwise IEEE operations are on the state path: no
@@ -1812,6 +1968,7 @@ def run(ck: Check):
                 ck.bucket("runs/raised-" + res["error"].split(":")[0])
             n_before = len(found)
             check_records(ck, cfg, res, found, label)
+            check_log_files(ck, cfg, res, found, tseed)
             for j in range(n_before, len(found)):
                 found[j] = found[j] + (tseed,)
             if drv and not cfg.get("oracle_only"):
